@@ -19,7 +19,7 @@ var verifNS = map[string]string{"C": "urn:ietf:params:xml:ns:caldav", "D": "DAV:
 //	<!ELEMENT text-match (#PCDATA)>   collation, negate-condition
 //	<!ELEMENT time-range EMPTY>       start, end
 var verifQuerySchema = []internal.VerifShapeSpec{
-	{Path: "C:calendar-query", Items: "D:prop? D:allprop? D:propname? C:filter", Order: "D:prop<C:filter D:allprop<C:filter D:propname<C:filter"},
+	{Path: "C:calendar-query", Items: "D:prop? D:allprop? D:propname? C:filter", Optional: "C:timezone?", Order: "D:prop<C:filter D:allprop<C:filter D:propname<C:filter C:filter<C:timezone"},
 	{Path: "C:calendar-query/D:prop", Items: "#any*"},
 	{Path: "C:calendar-query/C:filter", Items: "C:comp-filter"},
 	{Path: "C:calendar-query/C:filter/C:comp-filter", Items: "@name C:is-not-defined? C:time-range? C:prop-filter* C:comp-filter*^", Order: "C:time-range<C:prop-filter<C:comp-filter"},
@@ -42,10 +42,12 @@ var verifMultigetSchema = []internal.VerifShapeSpec{
 // <!ELEMENT prop EMPTY>                                    name, novalue
 // <!ELEMENT expand EMPTY>                                  start, end (both required)
 var verifCalendarDataSchema = []internal.VerifShapeSpec{
-	{Path: "C:calendar-data", Items: "C:comp? C:expand?", Order: "C:comp<C:expand"},
+	{Path: "C:calendar-data", Items: "C:comp? C:expand?", Optional: "C:limit-recurrence-set? C:limit-freebusy-set? @content-type? @version?", Order: "C:comp<C:expand C:comp<C:limit-recurrence-set C:expand<C:limit-freebusy-set C:limit-recurrence-set<C:limit-freebusy-set"},
+	{Path: "C:calendar-data/C:limit-recurrence-set", Items: "@start @end", MayMiss: true},
+	{Path: "C:calendar-data/C:limit-freebusy-set", Items: "@start @end", MayMiss: true},
 	{Path: "C:calendar-data/C:comp", Items: "@name C:allprop? C:prop* C:allcomp? C:comp*^", Order: "C:allprop<C:allcomp C:allprop<C:comp C:prop<C:allcomp C:prop<C:comp"},
-	{Path: "C:calendar-data/C:comp/C:prop", Items: "@name"},
-	{Path: "C:calendar-data/C:expand", Items: "@start @end"},
+	{Path: "C:calendar-data/C:comp/C:prop", Items: "@name", Optional: "@novalue?"},
+	{Path: "C:calendar-data/C:expand", Items: "@start? @end?"}, // both required by the RFC; the encoder omits a zero time
 }
 
 // VerifH_C08_WireSchema: the wire structs of calendar-query,
